@@ -24,7 +24,7 @@ for m in sorted(glob.glob(os.path.join(a.src, "m*"))):
     rc1, _ = sh("/venv/bin/python %s/demo.py %s" % (m, a.wt), timeout=300)
     tests = "skipped"
     if not a.skip_tests:
-        _, out = sh("cd %s && /venv/bin/python -m pytest -q -p no:cacheprovider --timeout=900 --continue-on-collection-errors 2>&1 | tail -1" % a.wt, timeout=900)
+        _, out = sh("cd %s && PYTHONPATH=%s/src /venv/bin/python -m pytest -q -p no:cacheprovider --timeout=900 --continue-on-collection-errors 2>&1 | tail -1" % (a.wt, a.wt), timeout=900)
         tests = out.strip().split("\n")[-1]
     res = {}
     for p in props:
